@@ -174,6 +174,27 @@ def _update_cell(fname, cls):
     return run
 
 
+def _update_X_cell(fname, defect, up):
+    """a forecaster fitted with exogenous data is updated with new observations and exogenous rows that do not belong to them"""
+    def run(cx):
+        spec = FORECASTERS[fname]
+        f, g = zoo.build(spec), zoo.build(spec)
+        f.fit(cx.y.copy(), cx.X.copy(), fh=cx.fh)
+        g.fit(cx.y.copy(), cx.X.copy(), fh=cx.fh)
+        Xn = pd.DataFrame({c: np.arange(len(cx.ynew), dtype=float) + 1.0 for c in cx.X.columns}, index=cx.ynew.index)
+        Xb = {"empty": Xn.iloc[:0], "shifted": pd.DataFrame(Xn.values, columns=Xn.columns, index=Xn.index + 1), "shorter": Xn.iloc[:-1],
+              "longer": pd.DataFrame(np.vstack([Xn.values, Xn.values[-1:]]), columns=Xn.columns, index=pd.RangeIndex(Xn.index[0], Xn.index[-1] + 2))}[defect]
+        c0 = f.cutoff
+
+        def bad():
+            try:
+                return f.update(cx.ynew.copy(), Xb, update_params=up)
+            finally:
+                run.cutoff_moved = f.cutoff != c0
+        return bad, (lambda: g.update(cx.ynew.copy(), Xn.copy(), update_params=up)), None
+    return run
+
+
 def _fit_missing_fh(fname):
     def run(cx):
         f, g = zoo.build(FORECASTERS[fname]), zoo.build(FORECASTERS[fname])
@@ -429,6 +450,10 @@ for _f in FORECASTERS:
             _add("fit:%s:X:index-differs:%s" % (_f, _xc), _fit_cell(_f, "X", _xc))
     for _c in ("unsorted", "dataframe", "ndarray"):
         _add("update:%s:y:%s" % (_f, _c), _update_cell(_f, _c))
+    if _f in ("naive", "naive-seasonal", "reduce-rec", "pipeline"):
+        for _c in ("empty", "shifted", "shorter", "longer"):
+            for _up in (True, False):
+                _add("update:%s:X:%s:update_params=%s" % (_f, _c, _up), _update_X_cell(_f, _c, _up))
 for _f in ("reduce-dir", "stack"):
     _add("fit:%s:fh:missing" % _f, _fit_missing_fh(_f))
     _add("refit:%s:fh:missing" % _f, _refit_missing_fh(_f))
